@@ -52,6 +52,20 @@ def setup(eng, st):
         eng.class_id(c)
 
 
+SEQ_ITEMS = z3.Function("seq_items", V.Val, V.ValSeq)  # the elements of an ISeq, in order
+
+
+def _abstract_seq():
+    from basilisp.lang.interfaces import ISeq
+
+    class AbstractSeq(ISeq):  # never instantiated: a class id + the MRO that leads to ISeq's methods
+        """stand-in for any ISeq (lazy seq, cons, ...)"""
+
+    return AbstractSeq
+
+
+AbstractSeq = _abstract_seq()
+
 H_tuple = ops.opq("H_tuple", V.ValSeq, z3.IntSort())
 H_pvector = ops.opq("H_pvector", V.ValSeq, z3.IntSort())
 
@@ -120,6 +134,25 @@ def build(active_known=frozenset()):
         c.replay(rph)
         c.replay_without_model = True
 
+    # ---- lazy seqs, conses and every other ISeq inherit ISeq.__hash__: the same function of all the elements
+    from basilisp.lang.interfaces import ISeq
+
+    def seq_setup(eng, st):
+        setup(eng, st)
+        eng.class_id(AbstractSeq)
+        from pyvc.loops import SymIter
+
+        eng.method_models[(AbstractSeq, "__iter__")] = Model("iter(<an ISeq>) (its elements, in order)", lambda e, s, a, k: iter([(s, SymIter(SEQ_ITEMS(e.lift(a[0], s))))]))
+
+    c = pack.contract("basilisp.lang.interfaces:ISeq.__hash__")
+    c.param("self", OBJ(AbstractSeq))
+    c.setup(seq_setup)
+    c.raises()
+    c.ensures("the hash of a seq (lazy seq, cons, ...) is the tuple hash of *all* its elements - the function vectors, lists and queues use, so a seq equal to one of them "
+              "hashes like it and finds it as a map key", lambda a: z3.And(V.is_int(a.result), V.Val.i(a.result) == H_tuple(SEQ_ITEMS(a.self))))
+    c.replay(lambda m, ctx, ob: HASH_REPLAY)
+    c.replay_without_model = True
+
     # ------------------------------------------------------------------ lemmas about the spec relation
     e = z3.Function("elem_eq", V.Val, V.Val, z3.BoolSort())
     x, y, w = z3.Consts("x y w", V.Val)
@@ -165,5 +198,17 @@ print("(= [1 2] '(1 2)):", a == b, " hashes:", hash(a), hash(b), hash(q))
 m = lmap.map({a: "found"})
 print("(get {[1 2] :found} '(1 2)) ->", m.val_at(b))
 bad = (a == b and hash(a) != hash(b)) or (q == a and hash(q) != hash(a)) or (a == b and m.val_at(b) != "found")
+from basilisp.lang import seq as lseq
+for n in (0, 1, 3, 32, 33, 100):
+    v = vec.vector(range(n))
+    for label, sq in (("lazy seq", lseq.iterator_sequence(iter(range(n)))), ("seq of a vector", v.seq()), ("cons", lseq.Cons(0, lseq.iterator_sequence(iter(range(1, n)))) if n else None)):
+        if sq is None:
+            continue
+        if sq == v and hash(sq) != hash(v):
+            print("n=%d: a %s equals the vector but hashes differently" % (n, label))
+            bad = True
+        if sq == v and lmap.map({v: "found"}).val_at(sq) != "found":
+            print("n=%d: a %s equal to the vector does not find it as a map key" % (n, label))
+            bad = True
 print("REPRODUCED" if bad else "not reproduced")
 '''
